@@ -87,7 +87,8 @@ FragVote(f, p) ==
 NVotes(frags, p, b) == Cardinality({ i \in DOMAIN frags : FragVote(frags[i], p) = b })
 (* molecule consensus over the safe spans: strict plurality, otherwise absent *)
 ConsAt(frags, p) ==
-    LET win == { b \in Bases : NVotes(frags, p, b) > 0 /\ \A b2 \in Bases \ {b} : NVotes(frags, p, b2) < NVotes(frags, p, b) }
+    LET v == [ b \in Bases |-> NVotes(frags, p, b) ]
+        win == { b \in Bases : v[b] > 0 /\ \A b2 \in Bases \ {b} : v[b2] < v[b] }
     IN IF win = {} THEN "none" ELSE CHOOSE b \in win : TRUE
 SafeCovered(frags, p) == \E i \in DOMAIN frags : InSafe(frags[i], p) /\ FragCalls(frags[i], p) # {}
 (* molecule strand = orientation of read 1 (all fragments of a molecule share it) *)
@@ -130,7 +131,10 @@ TotalTags == <<"MC", "uC", "sZ", "sz", "sX", "sx", "sH", "sh">>
 (* one read: XM has one character per aligned base; each letter in it is a call and must be right *)
 ReadClause(ref, t, frags, calls, r) ==
     IF Len(r.xm) # Len(r.al) THEN "Inv_C14_XMLen"
-    ELSE LET bad == { i \in DOMAIN r.xm : r.xm[i] # Dot /\ CallClause(ref, t, frags, r.al[i].p, r.xm[i]) # "ok" }
+    ELSE LET (* a letter equal to the molecule's call at that position has been judged with the call (MolClause looks at  *)
+             (* the reads only when every call is "ok"); any other letter is judged on its own                        *)
+             same(i) == r.al[i].p \in DOMAIN calls /\ calls[r.al[i].p] = r.xm[i]
+             bad == { i \in DOMAIN r.xm : r.xm[i] # Dot /\ ~same(i) /\ CallClause(ref, t, frags, r.al[i].p, r.xm[i]) # "ok" }
          IN IF bad # {} THEN "Inv_C14_XM_" \o CallClause(ref, t, frags, r.al[MinOf(bad)].p, r.xm[MinOf(bad)])
             ELSE IF \E k \in DOMAIN TotalTags : r.tot[TotalTags[k]] # Totals(calls)[TotalTags[k]] THEN "Inv_C14_Totals"
             ELSE "ok"
